@@ -52,15 +52,26 @@ Theorem C08_stream_conservation : forall s, BReachable s -> chlen s + brecvd s =
 Proof. exact stream_conservation. Qed.
 Print Assumptions C08_stream_conservation.
 
+(* The stream has one slot per item, so an item that has not sent its outcome yet never has to
+   wait for a reader: the batch completes whether or not anybody reads the stream. *)
+Theorem C08_send_never_blocks : forall s, BReachable s -> bsends s < bn s -> chlen s < bcap s.
+Proof. exact send_never_blocks. Qed.
+Print Assumptions C08_send_never_blocks.
+
+Theorem C08_stream_has_a_slot_per_item :
+  forall s n c s', bstep s (BNew n c) = Some s' -> n <= c /\ bcap s' = c /\ bn s' = n.
+Proof. exact stream_has_a_slot_per_item. Qed.
+Print Assumptions C08_stream_has_a_slot_per_item.
+
 (* non-vacuity: two items finish on different goroutines, the second closes; and the empty batch *)
 Example C08_example :
-  match brun_t [RB (BNew 2); RB (BSend 3); RBDoneLoad 3 2; RB (BSend 4); RBDoneLoad 4 2; RBDoneCas 3 true;
+  match brun_t [RB (BNew 2 2); RB (BSend 3); RBDoneLoad 3 2; RB (BSend 4); RBDoneLoad 4 2; RBDoneCas 3 true;
                 RBDoneCas 4 false; RBDoneLoad 4 1; RB (BWgDone 3); RBDoneCas 4 true; RB (BWgDone 4);
                 RB (BClose 4); RB (BRecv 7 true); RB (BRecv 7 true); RB (BRecv 7 false); RB (BWait 0)] with
   | inr s => bcloses s = 1 /\ brecvd s = 2 /\ bcount s = 0
   | inl _ => False
   end /\
-  match brun_t [RB (BNew 0); RB BCloseEmpty; RB (BRecv 5 false); RB (BWait 0)] with
+  match brun_t [RB (BNew 0 0); RB BCloseEmpty; RB (BRecv 5 false); RB (BWait 0)] with
   | inr s => bcloses s = 1
   | inl _ => False
   end.
